@@ -163,7 +163,7 @@ OpSet ==
                 THEN OpenReaderOps(nops) ELSE {}) \cup LiveReaderOps
           ELSE {})
 
-IsEnv(op) == op.op \in {"env_content", "env_bucket", "env_ext", "env_stray"}
+IsEnv(op) == op.op \in {"env_content", "env_bucket", "env_ext", "env_stray", "env_tmp"}
 
 (* ---- ghost bookkeeping --------------------------------------------------- *)
 
